@@ -304,10 +304,18 @@ func (rc *runCtx) textWorker(ti int, wg *sync.WaitGroup) {
 		return
 	}
 	count := fmt.Sprint(s.Cap)
+	// every second text connection starts with a hold that expires while the connection is idle: the connection's FIRST
+	// lock-type reply takes a different path through ProcessLockResultCommand (no pooled result object yet)
+	firstExpire := ti%2 == 0
 	for time.Now().Before(rc.deadline) {
 		key := hex32(keyOf(s, rng.Intn(s.Keys)))
 		lid := g.next('L', kText)
-		switch x := rng.Intn(10); {
+		x := rng.Intn(10)
+		forceIdle := false
+		if firstExpire {
+			x, forceIdle, firstExpire = 9, true, false
+		}
+		switch {
 		case x < 4: // pair
 			rep, ok := do("pair", 1, lid, false, 0, []string{"LOCK", key, "LOCK_ID", hex32(lid), "TIMEOUT", fmt.Sprint(s.TimeoutS), "EXPRIED", fmt.Sprint(s.ExpriedS), "COUNT", count})
 			if !ok {
@@ -350,7 +358,11 @@ func (rc *runCtx) textWorker(ti int, wg *sync.WaitGroup) {
 				return
 			}
 			if len(rep) > 0 && rep[0] == "0" {
-				switch rng.Intn(3) {
+				mode := rng.Intn(3)
+				if forceIdle {
+					mode = 0
+				}
+				switch mode {
 				case 0: // idle beyond the expiry
 					tc.idleProbe(time.Duration(ms+15) * time.Millisecond)
 				case 1: // next command races the expiry
